@@ -31,7 +31,7 @@ enum Slot {
     A(Arc<T>), AB(Arc<TB>), AD(Arc<dyn TrW>), AS(Arc<[T]>), AU(Arc<US>), AH(Arc<HS>), AW(Arc<HWL>),
     AM(Arc<MaybeUninit<T>>), AMS(Arc<[MaybeUninit<T>]>),
     Th(ThinArc<T, T>), O(OffsetArc<T>), U(ArcUnion<T, TB>),
-    Q(UniqueArc<T>), QS(UniqueArc<[T]>), QH(UniqueArc<HS>),
+    Q(UniqueArc<T>), QS(UniqueArc<[T]>), QH(UniqueArc<HS>), QD(UniqueArc<dyn TrW>),
     QM(UniqueArc<MaybeUninit<T>>), QMS(UniqueArc<[MaybeUninit<T>]>), QHM(UniqueArc<HSM>),
     R(*const T), RB(*const TB), RS(*const [T]), RD(*const dyn TrW), RT(*const c_void),
 }
@@ -140,6 +140,7 @@ impl World {
             }
             Q(q) => ("uniq", "sized", first_word(q), 1, vec![], format!("[{}]", show_t(q))),
             QS(q) => ("uniq", "slice", first_word(q), q.len(), vec![], show_slice(q)),
+            QD(q) => ("uniq", "dyn", first_word(q), 1, vec![], { let (x, y) = q.read_dyn(); format!("[{}.{}]", x, y) }),
             QH(q) => ("uniq", "hs", first_word(q), q.slice.len(), vec![], format!("h{}{}", show_t(&q.header), show_slice(&q.slice))),
             QM(q) => ("uniq", "mu", first_word(q), 1, vec![], "-".into()),
             QMS(q) => ("uniq", "muSlice", first_word(q), q.len(), vec![], "-".into()),
@@ -163,7 +164,7 @@ impl World {
             Empty => return -1,
             A(a) => first_word(a), AB(a) => first_word(a), AD(a) => first_word(a), AS(a) => first_word(a), AU(a) => first_word(a),
             AH(a) => first_word(a), AW(a) => first_word(a), AM(a) => first_word(a), AMS(a) => first_word(a), Th(a) => first_word(a),
-            O(a) => first_word(a), U(a) => first_word(a) & !1, Q(a) => first_word(a), QS(a) => first_word(a), QH(a) => first_word(a),
+            O(a) => first_word(a), U(a) => first_word(a) & !1, Q(a) => first_word(a), QS(a) => first_word(a), QH(a) => first_word(a), QD(a) => first_word(a),
             QM(a) => first_word(a), QMS(a) => first_word(a), QHM(a) => first_word(a),
             R(p) => *p as usize, RB(p) => *p as usize, RS(p) => *p as *const T as usize, RD(p) => *p as *const u8 as usize, RT(p) => *p as usize,
         };
@@ -352,12 +353,12 @@ fn run_op(w: &mut World, f: &[&str]) -> St {
                 ("unionSecond", AB(_)) => true,
                 ("eraseHeader", AU(_)) => true,
                 ("addHeader", AS(_)) => true,
-                ("shareable", Q(_) | QS(_) | QH(_) | QM(_) | QMS(_)) => true,
+                ("shareable", Q(_) | QS(_) | QH(_) | QM(_) | QMS(_) | QD(_)) => true,
                 ("assumeInit", AM(_) | QM(_)) => w.all_written(s, 1),
                 ("assumeInit", AMS(a)) => { let k = a.len(); w.all_written(s, k) }
                 ("assumeInit", QMS(a)) => { let k = a.len(); w.all_written(s, k) }
                 ("assumeInit", QHM(a)) => { let k = a.slice.len(); w.all_written(s, k) }
-                ("toDyn", A(_)) => true,
+                ("toDyn", A(_)) | ("toDyn", Q(_)) => true,
                 _ => false,
             };
             if !okc { bad!(); }
@@ -383,6 +384,7 @@ fn run_op(w: &mut World, f: &[&str]) -> St {
                     ("addHeader", AS(a)) => AU(a.into()),
                     ("shareable", Q(q)) => A(q.shareable()),
                     ("shareable", QS(q)) => AS(q.shareable()),
+                    ("shareable", QD(q)) => AD(q.shareable()),
                     ("shareable", QH(q)) => AH(q.shareable()),
                     ("shareable", QM(q)) => AM(q.shareable()),
                     ("shareable", QMS(q)) => AMS(q.shareable()),
@@ -392,6 +394,7 @@ fn run_op(w: &mut World, f: &[&str]) -> St {
                     ("assumeInit", QMS(a)) => QS(UniqueArc::assume_init_slice(a)),
                     ("assumeInit", QHM(a)) => QH(a.assume_init_slice_with_header()),
                     ("toDyn", A(a)) => { let p = Arc::into_raw(a); let d: *const dyn TrW = p; AD(Arc::from_raw(d)) }
+                    ("toDyn", Q(a)) => QD(uniq_to_dyn(a)),
                     (_, _) => unreachable!(),
                 }
             };
@@ -536,6 +539,7 @@ fn run_op(w: &mut World, f: &[&str]) -> St {
                 Q(q) => q.set_val(v),
                 QS(q) => if let Some(x) = q.first_mut() { x.set_val(v) },
                 QH(q) => q.header.set_val(v),
+                QD(q) => q.set(v),
                 _ => bad!(),
             }
             St::Ok(String::new())
@@ -567,7 +571,7 @@ fn run_op(w: &mut World, f: &[&str]) -> St {
             if !okc { bad!(); }
             for a in &acts {
                 let mut it = a.split(':'); let nm = it.next().unwrap_or(""); let arg = it.next();
-                match (nm, arg) { ("cnt" | "read" | "panic", None) => {} ("clone" | "cloneArc" | "getMut" | "replace", Some(x)) if x.parse::<usize>().is_ok() => {} _ => bad!() }
+                match (nm, arg) { ("cnt" | "read" | "panic", None) => {} ("clone" | "cloneArc" | "getMut" | "replace" | "swap", Some(x)) if x.parse::<usize>().is_ok() => {} _ => bad!() }
             }
             let mut acc = String::new();
             // the lending slot stays in place (a panic must not drop it); the callback reaches the
@@ -618,6 +622,19 @@ fn run_op(w: &mut World, f: &[&str]) -> St {
                                     if let Th(t2) = others!().take(k) { *a = Arc::protected_from_thin(t2); acc.push_str("replaced;") }
                                 } else { acc.push_str("skip;") }
                             }
+                            "swap" => {
+                                // `mem::swap(arc, &mut spare)` with spare = the protected Arc of the ThinArc in slot k; the
+                                // spare (now the old transient) goes back into slot k: no count moves, nothing is dropped
+                                let k = arg!(act);
+                                if k < NSLOTS && k != s && matches!(others!().slots[k], Th(_)) {
+                                    if let Th(t2) = others!().take(k) {
+                                        let mut spare = Arc::protected_from_thin(t2);
+                                        std::mem::swap(a, &mut spare);
+                                        others!().slots[k] = Th(Arc::protected_into_thin(spare));
+                                        acc.push_str("swapped;")
+                                    }
+                                } else { acc.push_str("skip;") }
+                            }
                             _ => acc.push_str("skip;"),
                         }
                     }),
@@ -632,6 +649,22 @@ fn run_op(w: &mut World, f: &[&str]) -> St {
         }
         _ => St::Bad,
     }
+}
+
+/// `UniqueArc<T>` -> `UniqueArc<dyn TrW>`: the `unsize` coercion when the crate is built with that feature; otherwise
+/// (no coercion exists for UniqueArc) the same hand-over through the shareable Arc and back (count untouched either way)
+#[cfg(feature = "t_unsize")]
+fn uniq_to_dyn(a: UniqueArc<T>) -> UniqueArc<dyn TrW> {
+    use unsize::{CoerceUnsize, Coercion};
+    lib(|| a.unsize(Coercion!(to dyn TrW)))
+}
+#[cfg(not(feature = "t_unsize"))]
+fn uniq_to_dyn(a: UniqueArc<T>) -> UniqueArc<dyn TrW> {
+    lib(|| unsafe {
+        let p = Arc::into_raw(a.shareable());
+        let d: *const dyn TrW = p;
+        match Arc::try_unique(Arc::from_raw(d)) { Ok(u) => u, Err(_) => unreachable!() }
+    })
 }
 
 thread_local! { static CB_ACC: std::cell::RefCell<String> = const { std::cell::RefCell::new(String::new()) }; }
